@@ -8,6 +8,7 @@ EXPLANATION = (
     "one direction only shows up as a feature present in one sibling and absent in the other. It does not decide that either direction is right."
     " C06.2 additionally decides that the tombstone sets of MemTable / L0Run only grow (insert / extend) or are moved whole into the frozen run: a run's tombstone is what hides older copies of the key."
     " C06.2 also covers the blocked sets a neighbour iterator accumulates (no whole-set assignment). C06.3: MemTable.out is keyed by the edge's source and MemTable.in_ by its destination in every access, and freeze_into_run fills edges_by_src / edges_by_dst from the matching map."
+    " C06.4: the whole-map property overlays (merge_node/edge_properties_from_runs) resolve each key at the newest run that mentions it: one resolved-set receives both the removed keys and the set keys inside the loop over runs, every addition to the merged map happens only after that set accepted the key, and the merged map is not edited after the loop (a removal recorded by an older run must not erase a newer value)."
 )
 
 S = "nervusdb_storage::"
@@ -137,6 +138,7 @@ def run(ctx):
     ctx.floor("C06.2", "mutating calls on tombstone sets", n2, 6)
 
     keyed_by_rule(ctx, "C06.3")
+    overlay_resolution_rule(ctx)
 
 
 def keyed_by_rule(ctx, rid):
@@ -247,3 +249,61 @@ def keyed_by_rule(ctx, rid):
             ctx.instance(rid, "freeze_into_run: L0Run.%s filled from MemTable.%s" % (pname[ai], sorted(srcs) or "?"))
             ctx.oblige(srcs == {want}, rid, "freeze_into_run:%s-from-%s" % (pname[ai], "+".join(sorted(srcs)) or "unknown"),
                        "the frozen run's %s is filled from MemTable.%s instead of MemTable.%s: outgoing and incoming adjacency of the committed run are swapped" % (pname[ai], sorted(srcs), want), fb.file)
+
+
+MERGE_FNS = (S + "read_path_overlay::merge_node_properties_from_runs", S + "read_path_overlay::merge_edge_properties_from_runs")
+
+
+def overlay_resolution_rule(ctx, rid="C06.4"):
+    from ..facts import op_local
+    from ..mirutil import peel_refs, backward_slice
+    from .c26 import only_via, bool_branches
+    ctx.rule(rid, "whole-map property overlay: per key the newest run that sets or removes it decides (one resolved set, guarded additions, no edit after the loop)")
+    n = 0
+    for fn in MERGE_FNS:
+        b = ctx.body(fn)
+        short = fn.split("::")[-1]
+        maps = [c.dest[0] for c in b.calls() if c.name.startswith("alloc::collections::btree::map::BTreeMap::<K, V>::new")]
+        ctx.oblige(len(maps) == 1, rid, "%s:%s:merged" % (rid, short), "expected one result map built in %s, found %d" % (short, len(maps)), b.file)
+        if len(maps) != 1:
+            continue
+        merged = maps[0]
+        nexts = [c for c in b.calls() if c.name.endswith("Iterator>::next") and "L0Run" in (c.callee.get("self") or b.local_ty(peel_refs(b, op_local(c.args[0])) or 0))]
+        ctx.oblige(len(nexts) == 1, rid, "%s:%s:loop" % (rid, short), "cannot find the loop over runs in %s" % short, b.file)
+        if len(nexts) != 1:
+            continue
+        h = nexts[0].bb
+        loop = {x for x in b.reachable([h]) if h in b.reachable([x])} | {h}
+        set_inserts = [c for c in b.calls() if c.name.startswith("alloc::collections::btree::set::BTreeSet::<T, A>::insert")]
+        sets = {peel_refs(b, op_local(c.args[0])) for c in set_inserts}
+        removed_src = {}
+        for c in set_inserts:
+            _, fields = backward_slice(b, op_local(c.args[1]), depth=40)
+            if any(f[0].startswith("tombstoned_") for f in fields):
+                removed_src[peel_refs(b, op_local(c.args[0]))] = c
+        for c in b.calls():
+            if not c.name.startswith("alloc::collections::btree::map::BTreeMap::<K, V, A>::") or not c.args:
+                continue
+            if peel_refs(b, op_local(c.args[0])) != merged:
+                continue
+            sd = b.single_def(op_local(c.args[0]))
+            mutable = bool(sd and sd[2] == "assign" and sd[3][2][0] == "ref" and sd[3][2][1])
+            if not mutable:
+                continue
+            n += 1
+            meth = c.name.split("::")[-1]
+            ctx.instance(rid, "%s: merged.%s at bb%d (%s the runs loop)" % (short, meth, c.bb, "inside" if c.bb in loop else "outside"))
+            if c.bb not in loop:
+                ctx.finding(rid, "%s:%s:%s-after-loop" % (rid, short, meth), "%s edits the merged map after the loop over runs (%s): a removal or value "
+                            "collected from an older run can then override what a newer run decided" % (short, meth), c.loc())
+                continue
+            guard = None
+            for g in set_inserts:
+                br = bool_branches(b, g.target) if g.target is not None else None
+                if br and only_via(b, br[1], g.target, c.bb):
+                    guard = g
+            ok = guard is not None and peel_refs(b, op_local(guard.args[0])) in removed_src
+            ctx.oblige(ok, rid, "%s:%s:%s:unguarded" % (rid, short, meth), "%s adds to the merged map without first claiming the key in the resolved set that also "
+                       "receives the removed keys: a key removed by a newer run is resurrected from an older one, or an older removal is applied to a newer value" % short, c.loc())
+        ctx.oblige(bool(removed_src), rid, "%s:%s:removed-keys" % (rid, short), "%s never records a run's removed keys as resolved" % short, b.file)
+    ctx.floor(rid, "merged-map mutation sites", n, 2)
